@@ -239,7 +239,7 @@ func TestC33(t *testing.T) {
 	c := newCaller()
 	modelSelfCheck(t)
 
-	rt.Check(t, rec, "plus", 20000, 500000, func(t *rapid.T) {
+	rt.Check(t, rec, "plus", 20000, 2000000, func(t *rapid.T) {
 		cd := genCdate(t, "d")
 		d := cd.su()
 		if d == core.NilDate {
@@ -345,7 +345,7 @@ func TestC33(t *testing.T) {
 		}
 	})
 
-	rt.Check(t, rec, "diff", 20000, 500000, func(t *rapid.T) {
+	rt.Check(t, rec, "diff", 20000, 2000000, func(t *rapid.T) {
 		ca := genCdate(t, "a")
 		var cb cdate
 		rel := gen.Pick(t, "rel", []string{"indep", "near_days", "same_day", "plus_days", "near_ms", "years"})
@@ -442,7 +442,7 @@ func TestC33(t *testing.T) {
 		}
 	})
 
-	rt.Check(t, rec, "literal", 10000, 300000, func(t *rapid.T) {
+	rt.Check(t, rec, "literal", 10000, 1000000, func(t *rapid.T) {
 		cd := genCdate(t, "d")
 		if gen.Chance(t, "end", 2) {
 			cd = cdate{y: 3000, mo: 1, d: 1}
@@ -478,7 +478,7 @@ func TestC33(t *testing.T) {
 		rec.Label(fmt.Sprintf("literal_len%d", len(s)))
 	})
 
-	rt.Check(t, rec, "valid_addms", 10000, 300000, func(t *rapid.T) {
+	rt.Check(t, rec, "valid_addms", 10000, 1000000, func(t *rapid.T) {
 		// validity of constructed dates follows the calendar
 		y := 1700 + int64(gen.Uniform(t, "y", 1300))
 		if gen.Chance(t, "cent", 30) {
